@@ -350,6 +350,8 @@ def run(ctx, anchors=None):
 
 
 MUTANTS = [
+    dict(name="commitment-counted-under-narrower-guard", file="btcdeb.cpp", find="    } else if (env->sigversion == SigVersion::TAPSCRIPT) {\n        // add commitment phase",
+         replace="    } else if (env->sigversion == SigVersion::TAPSCRIPT && env->tce && env->tce->m_path_len > 0) {\n        // add commitment phase", expect=["R12.1:commitment-lines-counted"]),
     dict(name="failed-step-keeps-pc", file="debugger/interpreter.cpp", find="            env.pc = env.pc_history.back();\n            env.nOpCount = env.nOpCount_history.back();\n            env.vfExec = env.vfExec_history.back();\n            env.pbegincodehash = env.pbegincodehash_history.back();\n            env.execdata = env.execdata_history.back();\n            env.opcode_pos = env.opcode_pos_history.back();\n            // ... and undo",
          replace="            env.nOpCount = env.nOpCount_history.back();\n            env.vfExec = env.vfExec_history.back();\n            env.pbegincodehash = env.pbegincodehash_history.back();\n            env.execdata = env.execdata_history.back();\n            env.opcode_pos = env.opcode_pos_history.back();\n            // ... and undo", expect=["R12.7:restored-on-failure:pc_history"]),
     dict(name="dualstack-p2sh-without-flag", file="functions.cpp", find="        if ((env->flags & SCRIPT_VERIFY_P2SH) && env->successor_script.IsPayToScriptHash()) {", replace="        if (env->successor_script.IsPayToScriptHash()) {", expect=["R12.6:same-p2sh-predicate"]),
